@@ -467,8 +467,15 @@ deriving DecidableEq, Repr
 section
 variable {Addr Prefix : Type}
 
-/-- listenerwrapper.go, the closure assigned to `pp.policy`.  NOTE: the host is parsed as it stands —
-    a zone (`fe80::1%eth0`) is NOT cut off here, unlike in server.go. -/
+/-- the containment tests of the policy closure, on the (zone-less) peer address -/
+def rangePolicy (N : Net Addr Prefix) (cfg : PPCfg Prefix) (ip : Addr) : PPolicy :=
+  if cfg.deny.any (fun r => N.contains r ip) then .reject
+  else if cfg.allow.any (fun r => N.contains r ip) then .use
+  else cfg.fallback
+
+/-- listenerwrapper.go, the closure assigned to `pp.policy`.  The host is parsed as it stands (a zoned
+    link-local address is accepted) and the zone is then dropped — `ip = ip.WithZone("")`, modelled as
+    parsing the host again without its zone — so that the ranges apply to link-local peers too. -/
 def connPolicy (N : Net Addr Prefix) (cfg : PPCfg Prefix) (network peer : Bytes) : PolicyResult :=
   if unixOrFd network then .policy .use                     -- "trust unix sockets"
   else
@@ -477,10 +484,10 @@ def connPolicy (N : Net Addr Prefix) (cfg : PPCfg Prefix) (network peer : Bytes)
     | some hp =>
       match N.parseAddr hp.1 with
       | none => .refuse
-      | some ip =>
-        if cfg.deny.any (fun r => N.contains r ip) then .policy .reject
-        else if cfg.allow.any (fun r => N.contains r ip) then .policy .use
-        else .policy cfg.fallback
+      | some _ =>
+        match N.parseAddr (cutZone hp.1) with
+        | none => .refuse          -- (not reachable with net/netip: what parses with a zone parses without)
+        | some ip => .policy (rangePolicy N cfg ip)
 
 /-- an accepted connection as the HTTP server sees it -/
 structure Accepted where
